@@ -27,7 +27,7 @@ def run(run):
     if quick:      # a seeded third of the name maps per run (always with the plain one)
         k = run.seed % 3
         maps_all = ['plain'] + [m for i, m in enumerate(maps_all[1:]) if i % 3 == k]
-    for lang in ('LTiny', 'LDup', 'LDef'):
+    for lang in ('LTiny', 'LDup', 'LDef', 'LSame'):
         run.gen_replay('Gen_Model', 'Gen_Model_sim.cfg', A, {'langs': langs, 'namemaps': maps_all},
                        env={'VERIF_LANG': lang, 'VERIF_DEPTH': 10, 'VERIF_MAXREJ': 0}, simulate=10 ** 9, depth=11,
                        max_cases=n, workers=8, timeout=400 if quick else 2400,
